@@ -50,8 +50,9 @@ def write(run, nviol, assumptions, known):
     }
     ev = {"property_id": run.prop, "tier": run.tier, "seed": run.seed, "level": "exploration", "coverage": cov,
           "assumptions": assumptions, "wall_s": round(wall, 1), "violations": nviol}
-    os.makedirs(os.path.join(VERIF, "evidence"), exist_ok=True)
-    path = os.path.join(VERIF, "evidence", "%s.json" % run.prop)
+    edir = os.environ.get("VERIF_EVIDENCE_DIR") or os.path.join(VERIF, "evidence")
+    os.makedirs(edir, exist_ok=True)
+    path = os.path.join(edir, "%s.json" % run.prop)
     tmp = path + ".tmp"
     json.dump(ev, open(tmp, "w"), indent=1, default=str)
     os.replace(tmp, path)
